@@ -226,6 +226,18 @@ func (m *Map) iter() *mapIter {
 	return &mapIter{snap: snap}
 }
 
+// iterOrd is iter with the path's global map-order choice (symMapOrderAll): maps
+// without an explicit permutation are ranged in reverse insertion order when rev is set.
+func (m *Map) iterOrd(rev bool) *mapIter {
+	it := m.iter()
+	if rev && (m == nil || m.perm == nil) {
+		for i, j := 0, len(it.snap)-1; i < j; i, j = i+1, j-1 {
+			it.snap[i], it.snap[j] = it.snap[j], it.snap[i]
+		}
+	}
+	return it
+}
+
 func (it *mapIter) next(p *Path) tuple {
 	for it.i < len(it.snap) {
 		e := it.snap[it.i]
